@@ -1,4 +1,5 @@
 import Proofs.Iterator
+import Proofs.TraverseG
 /-!
 # C15 — iteration returns the requested causal range, newest first, and always ends
 
@@ -157,5 +158,345 @@ theorem default_is_reverse_values {U : List Entry} {l : Log} (I : Inv U l) (ho :
     rwa [sortedHeads_eq I.headsNodup] at this
   simp [iterator, iterStart, iterTrim, iterDropGt, iterKeepLast, iterCount, iterEnd, iterAmount, values, traverse, traverseG, traverseFuel,
     sortedHeads_eq I.headsNodup, hom, hidem, hlen]
+
+/-! ## the causal range (general roots: `LTE`/`LT` bounds may be referenced and related)
+
+`iterFull l start` is the unbounded traversal without lower bound from the start entries
+(`Proofs/TraverseG.lean`); by `traverse_general` it is the strictly descending, duplicate-free list
+of exactly the causal past of the start entries. -/
+
+/-- the traversal behind a successful iteration -/
+theorem iterator_ok_eq {l : Log} {o : IterOpts} {out : List Entry} {c : Bool} {start : List Entry}
+    (h : iterator l o = .ok out c) (ha : o.amount ≠ some 0) (hs : iterStart l o = .ok start) :
+    out = iterTrim o (traverseG l.entries (before l.sortFn) (omFromList start) (iterCount o) (iterEnd o)) := by
+  unfold iterator at h
+  rw [if_neg ha, hs] at h
+  cases h; rfl
+
+/-- the full emission is the causal past of the start entries: strictly descending, duplicate-free,
+    and containing exactly the entries reachable from a start entry -/
+theorem iter_full_spec {U : List Entry} {l : Log} (I : Inv U l) (ho : OrderOk l.sortFn l.entries)
+    (o : IterOpts) (start : List Entry) (hs : iterStart l o = .ok start) :
+    (iterFull l start).Pairwise (fun a b => before l.sortFn a b = true) ∧ (iterFull l start).Nodup ∧
+    ∀ x, x ∈ iterFull l start ↔ ∃ r ∈ start, Desc l.entries r x := by
+  have C := ctxG_of_inv I ho
+  have hin := iterStart_mem I o start hs
+  have hroots : ∀ r ∈ omFromList start, r ∈ l.entries := fun r hr => hin r (mem_omFromList hr)
+  obtain ⟨h1, h2, h3⟩ := traverse_general C hroots
+  refine ⟨h1, h2, ?_⟩
+  intro x
+  rw [iterFull, h3 x]
+  constructor
+  · rintro ⟨r, hr, hd⟩; exact ⟨r, mem_omFromList hr, hd⟩
+  · rintro ⟨r, hr, hd⟩; exact ⟨r, (mem_omFromList_iff C.nodupH hin).mpr hr, hd⟩
+
+theorem iterTrim_infix (o : IterOpts) (T : List Entry) : ∃ s t, T = s ++ iterTrim o T ++ t := by
+  have h1 : ∃ t, T = iterDropGt o T ++ t := by
+    unfold iterDropGt
+    split
+    · exact ⟨T.drop (T.length - 1), by rw [List.dropLast_eq_take, List.take_append_drop]⟩
+    · exact ⟨[], by simp⟩
+  have h2 : ∃ s, iterDropGt o T = s ++ iterKeepLast o (iterDropGt o T) := by
+    unfold iterKeepLast
+    split
+    · exact ⟨(iterDropGt o T).take ((iterDropGt o T).length - (iterAmount o).toNat), by rw [List.take_append_drop]⟩
+    · exact ⟨[], by simp⟩
+  obtain ⟨t, ht⟩ := h1
+  obtain ⟨s, hs⟩ := h2
+  refine ⟨s, t, ?_⟩
+  unfold iterTrim
+  rw [← hs]; exact ht
+
+/-- **Range, soundness — any combination of bounds.**  A successful iteration emits a contiguous
+    stretch of the full emission: hence without duplicates, newest first, and only entries of the
+    causal past of the upper bound. -/
+theorem iter_range_sound {U : List Entry} {l : Log} (I : Inv U l) (ho : OrderOk l.sortFn l.entries)
+    (o : IterOpts) (out : List Entry) (c : Bool) (start : List Entry)
+    (h : iterator l o = .ok out c) (ha : o.amount ≠ some 0) (hs : iterStart l o = .ok start) :
+    (∃ s t, iterFull l start = s ++ out ++ t) ∧ out.Nodup ∧
+    out.Pairwise (fun a b => before l.sortFn a b = true) ∧
+    ∀ x ∈ out, ∃ r ∈ start, Desc l.entries r x := by
+  obtain ⟨hsorted, hnd, hmem⟩ := iter_full_spec I ho o start hs
+  have hinfix : ∃ s t, iterFull l start = s ++ out ++ t := by
+    rw [iterator_ok_eq h ha hs]
+    obtain ⟨t1, ht1⟩ := traverseG_prefix l.entries (before l.sortFn) (omFromList start) (iterCount o) (iterEnd o)
+    obtain ⟨s, t2, ht2⟩ := iterTrim_infix o
+      (traverseG l.entries (before l.sortFn) (omFromList start) (iterCount o) (iterEnd o))
+    refine ⟨s, t2 ++ t1, ?_⟩
+    rw [iterFull, ht1]
+    conv => lhs; rw [ht2]
+    simp [List.append_assoc]
+  obtain ⟨s, t, hst⟩ := hinfix
+  have hsub : out.Sublist (iterFull l start) := by
+    rw [hst]
+    exact (List.sublist_append_right s out).trans (List.sublist_append_left _ t)
+  exact ⟨⟨s, t, hst⟩, hnd.sublist hsub, hsorted.sublist hsub, fun x hx => (hmem x).mp (hsub.subset hx)⟩
+
+/-- **Range, no amount and no lower bound.**  The iteration emits exactly the causal past of the
+    upper bound (the given `LTE` entries inclusively, the predecessors of the `LT` bound, the heads
+    by default). -/
+theorem iter_range_full {U : List Entry} {l : Log} (I : Inv U l) (ho : OrderOk l.sortFn l.entries)
+    (o : IterOpts) (out : List Entry) (c : Bool) (start : List Entry)
+    (h : iterator l o = .ok out c) (hs : iterStart l o = .ok start)
+    (hamt : o.amount = none) (hgte : o.gte = none) (hgt : o.gt = none) :
+    out = iterFull l start ∧ ∀ x, x ∈ out ↔ ∃ r ∈ start, Desc l.entries r x := by
+  have ha : o.amount ≠ some 0 := by rw [hamt]; simp
+  have hout : out = iterFull l start := by
+    rw [iterator_ok_eq h ha hs]
+    simp [iterTrim, iterDropGt, iterKeepLast, iterCount, iterEnd, iterAmount, iterFull, hamt, hgte, hgt]
+  rw [hout]
+  exact ⟨rfl, (iter_full_spec I ho o start hs).2.2⟩
+
+theorem iterKeepLast_none {o : IterOpts} (hamt : o.amount = none) (w : List Entry) : iterKeepLast o w = w := by
+  simp [iterKeepLast, iterAmount, hamt]
+
+theorem iterKeepLast_some {o : IterOpts} {a : Int} (hamt : o.amount = some a) (h0 : 0 ≤ a)
+    (hlow : o.gt.isSome = true ∨ o.gte.isSome = true) (w : List Entry) :
+    iterKeepLast o w = w.drop (w.length - a.toNat) := by
+  have hA : iterAmount o = a := by simp [iterAmount, hamt]
+  unfold iterKeepLast
+  rw [hA]
+  split
+  · rfl
+  · rename_i hc
+    have : ¬ a < (w.length : Int) := fun hh => hc ⟨hlow, by omega, hh⟩
+    have : w.length - a.toNat = 0 := by omega
+    rw [this, List.drop_zero]
+
+/-- **Range with an inclusive lower bound `GTE = g`** inside the causal past: the part of the full
+    emission before `g`, then `g` itself; with an amount, the last `amount` of these (those nearest
+    the lower bound). -/
+theorem iter_range_gte {U : List Entry} {l : Log} (I : Inv U l) (ho : OrderOk l.sortFn l.entries)
+    (o : IterOpts) (out : List Entry) (c : Bool) (start : List Entry)
+    (h : iterator l o = .ok out c) (ha : o.amount ≠ some 0) (hs : iterStart l o = .ok start)
+    (g : Hash) (x : Entry) (hgte : o.gte = some g) (hgt : o.gt = none)
+    (hx : x ∈ iterFull l start) (hxg : x.hash = g) :
+    let w := (iterFull l start).takeWhile (fun e => e.hash != g) ++ [x]
+    (o.amount = none → out = w) ∧
+    (∀ a, o.amount = some a → 0 ≤ a → out = w.drop (w.length - a.toNat)) := by
+  intro w
+  have C := ctxG_of_inv I ho
+  have hin := iterStart_mem I o start hs
+  have hroots : ∀ r ∈ omFromList start, r ∈ l.entries := fun r hr => hin r (mem_omFromList hr)
+  have hend : iterEnd o = some g := by simp [iterEnd, hgte]
+  have hcnt : iterCount o = -1 := by simp [iterCount, hend]
+  have hT : traverseG l.entries (before l.sortFn) (omFromList start) (iterCount o) (iterEnd o) = w := by
+    rw [hcnt, hend]; exact traverse_endHash C hroots hx hxg
+  have hout : out = iterKeepLast o w := by
+    rw [iterator_ok_eq h ha hs, hT]
+    simp [iterTrim, iterDropGt, hgt]
+  rw [hout]
+  exact ⟨fun hamt => iterKeepLast_none hamt w,
+    fun a hamt h0 => iterKeepLast_some hamt h0 (Or.inr (by simp [hgte])) w⟩
+
+/-- **Range with an exclusive lower bound `GT = g`** inside the causal past: the part of the full
+    emission strictly before `g`; with an amount, the last `amount` of these. -/
+theorem iter_range_gt {U : List Entry} {l : Log} (I : Inv U l) (ho : OrderOk l.sortFn l.entries)
+    (o : IterOpts) (out : List Entry) (c : Bool) (start : List Entry)
+    (h : iterator l o = .ok out c) (ha : o.amount ≠ some 0) (hs : iterStart l o = .ok start)
+    (g : Hash) (x : Entry) (hgte : o.gte = none) (hgt : o.gt = some g)
+    (hx : x ∈ iterFull l start) (hxg : x.hash = g) :
+    let w := (iterFull l start).takeWhile (fun e => e.hash != g)
+    (o.amount = none → out = w) ∧
+    (∀ a, o.amount = some a → 0 ≤ a → out = w.drop (w.length - a.toNat)) := by
+  intro w
+  have C := ctxG_of_inv I ho
+  have hin := iterStart_mem I o start hs
+  have hroots : ∀ r ∈ omFromList start, r ∈ l.entries := fun r hr => hin r (mem_omFromList hr)
+  have hend : iterEnd o = some g := by simp [iterEnd, hgte, hgt]
+  have hcnt : iterCount o = -1 := by simp [iterCount, hend]
+  have hT : traverseG l.entries (before l.sortFn) (omFromList start) (iterCount o) (iterEnd o) = w ++ [x] := by
+    rw [hcnt, hend]; exact traverse_endHash C hroots hx hxg
+  have hout : out = iterKeepLast o w := by
+    rw [iterator_ok_eq h ha hs, hT]
+    simp [iterTrim, iterDropGt, hgt]
+  rw [hout]
+  exact ⟨fun hamt => iterKeepLast_none hamt w,
+    fun a hamt h0 => iterKeepLast_some hamt h0 (Or.inl (by simp [hgt])) w⟩
+
+/-- **Range with an amount and no lower bound**: a prefix (the newest part) of the full emission
+    of at most `amount` entries; exactly the `amount` newest when no start entry is a strict
+    descendant of a start entry.  (When start entries ARE related the code counts the second visit
+    of such an entry against `amount` without emitting anything — see `related_bounds_amount`.) -/
+theorem iter_range_amount {U : List Entry} {l : Log} (I : Inv U l) (ho : OrderOk l.sortFn l.entries)
+    (o : IterOpts) (out : List Entry) (c : Bool) (start : List Entry)
+    (h : iterator l o = .ok out c) (ha : o.amount ≠ some 0) (hs : iterStart l o = .ok start)
+    (a : Int) (hamt : o.amount = some a) (h0 : 0 ≤ a) (hgte : o.gte = none) (hgt : o.gt = none) :
+    (∃ t, iterFull l start = out ++ t) ∧ out.length ≤ a.toNat ∧
+    (RootsIndep l.entries (omFromList start) → out = (iterFull l start).take a.toNat) := by
+  have C := ctxG_of_inv I ho
+  have hin := iterStart_mem I o start hs
+  have hroots : ∀ r ∈ omFromList start, r ∈ l.entries := fun r hr => hin r (mem_omFromList hr)
+  have hend : iterEnd o = none := by simp [iterEnd, hgte, hgt]
+  have hcnt : iterCount o = a := by simp [iterCount, hend, hamt, iterAmount]
+  have hout : out = traverseG l.entries (before l.sortFn) (omFromList start) a none := by
+    rw [iterator_ok_eq h ha hs, hcnt, hend]
+    simp [iterTrim, iterDropGt, iterKeepLast, hgte, hgt]
+  rw [hout]
+  obtain ⟨h1, h2⟩ := traverse_amount l.entries (before l.sortFn) (omFromList start) a h0
+  refine ⟨h1, h2, ?_⟩
+  intro hind
+  exact traverse_amount_take C hroots (nodup_of_hashes_nodup (omFromList_nodup start)) hind a h0
+
+/-- the default upper bound (the heads) with an amount: the `amount` newest entries of the log -/
+theorem iter_heads_amount {U : List Entry} {l : Log} (I : Inv U l) (ho : OrderOk l.sortFn l.entries)
+    (o : IterOpts) (out : List Entry) (c : Bool)
+    (h : iterator l o = .ok out c) (hlte : o.lte = none) (hlt : o.lt = none)
+    (a : Int) (hamt : o.amount = some a) (h0 : 0 < a) (hgte : o.gte = none) (hgt : o.gt = none) :
+    out = (values l).reverse.take a.toNat := by
+  have hs : iterStart l o = .ok (sortedHeads l) := by simp [iterStart, hlte, hlt]
+  have ha : o.amount ≠ some 0 := by rw [hamt]; intro hh; cases hh; omega
+  have hind : RootsIndep l.entries (omFromList (sortedHeads l)) :=
+    rootsIndep_of_unref I (fun r hr => (mem_sortedHeads I.headsNodup).mp (mem_omFromList hr))
+  have hfull : iterFull l (sortedHeads l) = (values l).reverse := by
+    have hd := default_is_reverse_values I ho
+    have hs0 : iterStart l {} = .ok (sortedHeads l) := by simp [iterStart]
+    have := iterator_ok_eq hd (by simp) hs0
+    rw [this]
+    simp [iterTrim, iterDropGt, iterKeepLast, iterCount, iterEnd, iterAmount, iterFull]
+  rw [← hfull]
+  exact (iter_range_amount I ho o out c _ h ha hs a hamt (by omega) hgte hgt).2.2 hind
+
+/-! ## non-vacuity: a forked log, related `LTE` bounds -/
+
+def d1 : Entry := { hash := [1], logId := [7], next := [], refs := [], clock := { id := [1], time := 1 } }
+def d2 : Entry := { hash := [2], logId := [7], next := [[1]], refs := [], clock := { id := [1], time := 2 } }
+def d3 : Entry := { hash := [3], logId := [7], next := [[1]], refs := [], clock := { id := [2], time := 2 } }
+def d4 : Entry := { hash := [4], logId := [7], next := [[2], [3]], refs := [], clock := { id := [1], time := 3 } }
+def d5 : Entry := { hash := [5], logId := [7], next := [[3]], refs := [], clock := { id := [2], time := 3 } }
+
+/-- a forked log: `d2` and `d3` both follow `d1`; `d4` merges them; `d5` continues the fork after
+    `d3`.  Heads `d4`, `d5`. -/
+def demoLog : Log :=
+  { id := [7], entries := [d1, d2, d3, d4, d5], heads := [d4, d5], nextIdx := [[1], [2], [3]],
+    clock := { id := [1], time := 3 }, sortFn := .lww }
+
+theorem demoLog_inv : Inv demoLog.entries demoLog where
+  inU := fun _ h => h
+  nodup := by decide
+  closed := by decide
+  mono := by decide
+  headsIn := by decide
+  headsNodup := by decide
+  headsSpec := by unfold namedBy; decide
+  headsUnref := by unfold namedBy; decide
+  nextIdx := by
+    intro h
+    constructor
+    · intro hh
+      have : ∀ h ∈ demoLog.nextIdx, ∃ e ∈ demoLog.entries, h ∈ e.next := by decide
+      exact this h hh
+    · rintro ⟨e, he, hc⟩
+      have : ∀ e ∈ demoLog.entries, ∀ c ∈ e.next, c ∈ demoLog.nextIdx := by decide
+      exact this e he h hc
+  logId := by decide
+
+theorem demoLog_order : OrderOk demoLog.sortFn demoLog.entries := by
+  show ∀ a ∈ demoLog.entries, ∀ b ∈ demoLog.entries, a ≠ b → keyNe a b
+  unfold keyNe
+  decide
+
+/-- the bounds `LTE = [d4, d2]` are related: `d2` is a predecessor of `d4`, so these start entries
+    are neither unreferenced nor independent -/
+example : iterStart demoLog { lte := some [[4], [2]] } = .ok [d4, d2] ∧ Desc demoLog.entries d4 d2 ∧
+    ¬ RootsIndep demoLog.entries (omFromList [d4, d2]) := by
+  have hd : Desc demoLog.entries d4 d2 :=
+    Desc.step (c := [2]) (Desc.refl d4 (by decide)) (by decide) (by decide)
+  refine ⟨by decide, hd, ?_⟩
+  intro hind
+  exact hind d4 (by decide) d4 [2] d2 (Desc.refl d4 (by decide)) (by decide) (by decide) (by decide)
+
+example : iterFull demoLog [d4, d2] = [d4, d3, d2, d1] := by decide
+example : iterator demoLog { lte := some [[4], [2]] } = .ok [d4, d3, d2, d1] true := by decide
+example : iterator demoLog { lte := some [[4], [2]], gte := some [2] } = .ok [d4, d3, d2] true := by decide
+example : iterator demoLog { lte := some [[4], [2]], gt := some [2] } = .ok [d4, d3] true := by decide
+example : iterator demoLog { lte := some [[4], [2]], gte := some [2], amount := some 2 } = .ok [d3, d2] true := by decide
+example : iterator demoLog { lte := some [[4], [2]], gt := some [2], amount := some 1 } = .ok [d3] true := by decide
+example : iterator demoLog { lte := some [[4], [2]], amount := some 2 } = .ok [d4, d3] true := by decide
+example : iterator demoLog { lt := some [[4]] } = .ok [d3, d2, d1] true := by decide
+example : iterator demoLog { amount := some 2 } = .ok [d5, d4] true := by decide
+example : (values demoLog).reverse = [d5, d4, d3, d2, d1] := by decide
+
+/-- the theorems apply to the related bounds: the emission is exactly the causal past of `d4`, `d2` -/
+example : ∀ x, x ∈ [d4, d3, d2, d1] ↔ ∃ r ∈ [d4, d2], Desc demoLog.entries r x :=
+  (iter_range_full demoLog_inv demoLog_order { lte := some [[4], [2]] } [d4, d3, d2, d1] true [d4, d2]
+    (by decide) (by decide) rfl rfl rfl).2
+
+example : [d4, d3, d2] = ([d4, d3, d2, d1].takeWhile (fun e => e.hash != [2]) ++ [d2]) := by
+  have h := (iter_range_gte demoLog_inv demoLog_order { lte := some [[4], [2]], gte := some [2] } [d4, d3, d2] true [d4, d2]
+    (by decide) (by decide) (by decide) [2] d2 rfl rfl (by decide) rfl).1 rfl
+  have hf : iterFull demoLog [d4, d2] = [d4, d3, d2, d1] := by decide
+  rw [hf] at h
+  exact h
+
+example : [d3] = (([d4, d3, d2, d1].takeWhile (fun e => e.hash != [2])).drop
+    (([d4, d3, d2, d1].takeWhile (fun e => e.hash != [2])).length - (1 : Int).toNat)) := by
+  have h := (iter_range_gt demoLog_inv demoLog_order { lte := some [[4], [2]], gt := some [2], amount := some 1 } [d3] true [d4, d2]
+    (by decide) (by decide) (by decide) [2] d2 rfl rfl (by decide) rfl).2 1 rfl (by decide)
+  have hf : iterFull demoLog [d4, d2] = [d4, d3, d2, d1] := by decide
+  rw [hf] at h
+  exact h
+
+example : [d5, d4] = (values demoLog).reverse.take (2 : Int).toNat :=
+  iter_heads_amount demoLog_inv demoLog_order { amount := some 2 } [d5, d4] true (by decide) rfl rfl 2 rfl
+    (by decide) rfl rfl
+
+/-- **Observation (the code, not the model).**  With related upper bounds and an amount but no lower
+    bound, the second visit of a start entry that is also a predecessor is counted against `amount`
+    although nothing is emitted: asking for 4 entries of a causal past that has 4 entries yields 3.
+    (`iter_range_amount` therefore only promises a prefix of at most `amount` entries in general.) -/
+theorem related_bounds_amount :
+    iterator demoLog { lte := some [[4], [2]], amount := some 4 } = .ok [d4, d3, d2] true ∧
+    iterFull demoLog [d4, d2] = [d4, d3, d2, d1] := by decide
+
+/-! ## a lower bound that is NOT in the causal past of the upper bound -/
+
+/-- the traversal with an end hash nobody in the past carries is the full emission (pure loop fact) -/
+theorem traverse_endHash_outside (l : Log) (start : List Entry) (g : Hash)
+    (hout : ∀ x ∈ iterFull l start, x.hash ≠ g) :
+    traverseG l.entries (before l.sortFn) (omFromList start) (-1) (some g) = iterFull l start := by
+  rw [traverse_endHash_find]
+  show (iterFull l start).takeWhile (fun e => e.hash != g) ++
+    ((iterFull l start).find? (fun e => e.hash == g)).toList = iterFull l start
+  rw [takeWhile_all (fun r hr => by simpa using hout r hr), find?_all_false (fun r hr => by simpa using hout r hr)]
+  simp
+
+/-- an inclusive lower bound outside the causal past is ignored: the whole past is emitted -/
+theorem iter_range_gte_outside (l : Log) (o : IterOpts) (out : List Entry) (c : Bool) (start : List Entry)
+    (h : iterator l o = .ok out c) (hs : iterStart l o = .ok start) (hamt : o.amount = none)
+    (g : Hash) (hgte : o.gte = some g) (hgt : o.gt = none)
+    (hout : ∀ x ∈ iterFull l start, x.hash ≠ g) : out = iterFull l start := by
+  have ha : o.amount ≠ some 0 := by rw [hamt]; simp
+  have hend : iterEnd o = some g := by simp [iterEnd, hgte]
+  have hcnt : iterCount o = -1 := by simp [iterCount, hend]
+  rw [iterator_ok_eq h ha hs, hcnt, hend, traverse_endHash_outside l start g hout]
+  simp [iterTrim, iterDropGt, hgt, iterKeepLast_none hamt]
+
+/-- **Observation (the code).**  An exclusive lower bound outside the causal past is not ignored:
+    the traversal runs to the end, and then the LAST (oldest) entry of the past is dropped, as if
+    it were the bound. -/
+theorem iter_range_gt_outside (l : Log) (o : IterOpts) (out : List Entry) (c : Bool) (start : List Entry)
+    (h : iterator l o = .ok out c) (hs : iterStart l o = .ok start) (hamt : o.amount = none)
+    (g : Hash) (hgte : o.gte = none) (hgt : o.gt = some g)
+    (hout : ∀ x ∈ iterFull l start, x.hash ≠ g) : out = (iterFull l start).dropLast := by
+  have ha : o.amount ≠ some 0 := by rw [hamt]; simp
+  have hend : iterEnd o = some g := by simp [iterEnd, hgte, hgt]
+  have hcnt : iterCount o = -1 := by simp [iterCount, hend]
+  rw [iterator_ok_eq h ha hs, hcnt, hend, traverse_endHash_outside l start g hout]
+  unfold iterTrim
+  rw [iterKeepLast_none hamt]
+  unfold iterDropGt
+  split
+  · rfl
+  · rename_i hc
+    have : (iterFull l start).length = 0 := by
+      have : ¬ (iterFull l start).length > 0 := fun hh => hc ⟨by simp [hgt], hh⟩
+      omega
+    rw [List.length_eq_zero_iff.mp this]; rfl
+
+/-- `d5` is not in the past of `d2`: `GT = d5` drops `d1`, `GTE = d5` does not -/
+example : iterator demoLog { lte := some [[2]], gt := some [5] } = .ok [d2] true ∧
+    iterator demoLog { lte := some [[2]], gte := some [5] } = .ok [d2, d1] true ∧
+    iterFull demoLog [d2] = [d2, d1] := by decide
 
 end Model.C15
